@@ -541,6 +541,11 @@ func (e *Engine) envForFrame(s *State, f *Frame, extra map[string]specVal) *spec
 					if _, exists := env.vars[id.Name]; exists {
 						continue
 					}
+					// only local variables: the key identifiers of composite literals and constants
+					// also get debug references and must not shadow package-level names
+					if ov, isVar := d.Object().(*types.Var); !isVar || ov.IsField() || (ov.Pkg() != nil && ov.Parent() == ov.Pkg().Scope()) {
+						continue
+					}
 					if v, ok := f.regs[d.X]; ok {
 						env.vars[id.Name] = specVal{v, d.X.Type()}
 					}
